@@ -691,6 +691,35 @@ def _r10(repo: Repo, ctx) -> None:
                      and g.edge_dominates(t.id, 'T', n.id)
                      for t in g.nodes)]
         if not drops:
+            # the drop is there but asks another schema whether the pointer
+            # had a table: by the time the pointer is deleted only the
+            # original schema still knows
+            import re as _re
+            other = []
+            for n_ in g.nodes:
+                if n_.kind == 'stmt' and n_.ast is not None and any(
+                        isinstance(c, ast.Call) and norm(c.func) ==
+                        'dbops.DropTable' for c in ast.walk(n_.ast)):
+                    for t in g.nodes:
+                        if t.kind != 'test' or not g.edge_dominates(
+                                t.id, 'T', n_.id):
+                            continue
+                        m_ = _re.search(
+                            r'types\.has_table\(' + _re.escape(ptr) +
+                            r', (\w+)\)', norm(
+                                t.ast.test if hasattr(t.ast, 'test')
+                                else t.ast))
+                        if m_ and m_.group(1) != 'orig_schema':
+                            other.append(m_.group(1))
+            if other:
+                ctx.ob('C05.R10', f'{cls}.{meth}:own-table-dropped', False,
+                       f'{meth} decides whether the pointer\'s own table has '
+                       f'to be dropped by asking `{other[0]}` instead of the '
+                       f'original schema: when the last link property was '
+                       f'already removed by the same command tree that '
+                       f'schema says "no table" and the table is left behind',
+                       f.loc, sample=f'has_table({ptr}, {other[0]})')
+                continue
             raise AnalysisError(f'C05.R10: {meth}: no DropTable under '
                                 f'`{own}`')
         facts = {own: True,
